@@ -216,9 +216,9 @@ pub fn drive_hooked(args: &[String]) {
         run += 1;
         let tag = format!("p{run}");
         sink.emit(json!({"ev": "header", "run": tag, "name": name, "ng": ng, "rels": rels, "k": k}));
-        let _ = rust_dsymbols::verif::take();
+        rust_dsymbols::verif::record(true); let _ = rust_dsymbols::verif::take();
         let r = catch(|| coset_tables(ng, &words(&rels), k).count());
-        let evs = rust_dsymbols::verif::take();
+        rust_dsymbols::verif::record(false); let evs = rust_dsymbols::verif::take();
         // large trees: a seeded sample of the calls (every call is judged on its own)
         let total = evs.len();
         for e in evs {
